@@ -20,7 +20,7 @@ import math
 
 from hypothesis import strategies as st
 
-from vlib import bootstrap, gen, model, libroute, pairtab, eamtab, parsers, compare
+from vlib import bootstrap, gen, model, libroute, pairtab, eamtab, parsers, compare, rewrite
 from vlib.num import DomainError, EN
 from checks import c03_setfl
 
@@ -42,7 +42,7 @@ ASSUMPTIONS = [
     "Excel pair columns are accepted under either species order of the label",
 ]
 REQUIRED = {"target:GULP": 20, "target:excel": 15, "target:eam_adp": 20, "target:excel_eam": 15,
-            "target:excel_eam_fs": 15, "target:funcfl": 20, "adp:undeclared_multipole": 10}
+            "target:excel_eam_fs": 15, "target:funcfl": 20, "adp:undeclared_multipole": 10, "rewrite:2_writes": 2}
 XL = ("e", 16)
 
 
@@ -79,6 +79,27 @@ def _funcfl_case(draw):
             "species": [], "grid": draw(gen.eam_grid()), "title": draw(st.sampled_from(["", "Title", "U3 potential"]))}
 
 
+@st.composite
+def _rewrite(draw):
+    """GULP / ADP / funcfl written again from the same objects after one function was re-parametrised"""
+    target = draw(st.sampled_from(["GULP", "eam_adp", "funcfl"]))
+    if target == "GULP":
+        m = draw(_pair_case("GULP"))
+        m["route"] = draw(st.sampled_from(["class", "writePotentials"]))
+        m["pair"] = [[a, b, pd] for a, b, pd in m["pair"]]
+    elif target == "eam_adp":
+        m = draw(_eam_case("eam_adp"))
+        m["route"] = "class"
+    else:
+        m = draw(_funcfl_case())
+    m["rewrite"] = draw(rewrite.plan(m))
+    if target == "funcfl":
+        m["rewrite"]["ks"] = [abs(k) for k in m["rewrite"]["ks"]]      # the format stores sqrt(r*phi): phi stays >= 0
+        if any(a == b for a, b in zip(m["rewrite"]["ks"], m["rewrite"]["ks"][1:])):
+            m["rewrite"]["ks"] = [1.0, 2.0]
+    return m
+
+
 def strategy(tier):
     return _pair_case("GULP")
 
@@ -86,7 +107,7 @@ def strategy(tier):
 def strata(tier):
     return [("GULP", _pair_case("GULP"), 3), ("excel", _pair_case("excel"), 2), ("eam_adp", _eam_case("eam_adp"), 3),
             ("excel_eam", _eam_case("excel_eam"), 2), ("excel_eam_fs", _eam_case("excel_eam_fs"), 2),
-            ("funcfl", _funcfl_case(), 3)]
+            ("funcfl", _funcfl_case(), 3), ("rewrite", _rewrite(), 2)]
 
 
 def budget(tier):
@@ -110,11 +131,15 @@ def _check_gulp(m, cls):
     if route == "potable":
         out = libroute.write_text(libroute.read_text(ctx))
     else:
-        pots = pairtab.api_potentials(m, m.get("container", "list"))
-        cls.append("container:" + m.get("container", "list"))
+        rt = m.get("_rt")
+        pots = rt["objs"] if rt else pairtab.api_potentials(m, m.get("container", "list"))
+        cls.append("container:" + (m.get("container", "list") if not rt else "list"))
         fp = io.StringIO()
         if route == "class":
-            GULP_PairTabulation(pots, cutoff, nr).write(fp)
+            tab = (rt or {}).get("tab") or GULP_PairTabulation(pots, cutoff, nr)
+            if rt and rt["one"]:
+                rt["tab"] = tab
+            tab.write(fp)
         else:
             ap.writePotentials("GULP", pots, cutoff, nr, fp)
         out = fp.getvalue()
@@ -292,10 +317,14 @@ def _check_adp(m, cls):
     if route == "potable":
         out = libroute.write_text(libroute.read_text(ctx))
     else:
-        pairs, eams, dip, quad = eamtab.api_objects(m)
+        rt = m.get("_rt")
+        pairs, eams, dip, quad = rt["objs"] if rt else eamtab.api_objects(m)
         api_order = [e.species for e in eams]
         fp = io.StringIO()
-        ADP_EAMTabulation(pairs, eams, dip, quad, g["cutoff"], g["nr"], g["cutoff_rho"], g["nrho"]).write(fp)
+        tab = (rt or {}).get("tab") or ADP_EAMTabulation(pairs, eams, dip, quad, g["cutoff"], g["nr"], g["cutoff_rho"], g["nrho"])
+        if rt and rt["one"]:
+            rt["tab"] = tab
+        tab.write(fp)
         out = fp.getvalue()
         fp2 = io.StringIO()
         ap.writeSetFL(nrho, drho, nr, dr, eams, pairs, out=fp2)
@@ -316,7 +345,7 @@ def _check_funcfl(m, cls):
         raise DomainError("negative pair potential")
     embs = [eamtab.ref_value(ref, emb_pd, i * drho) for i in range(nrho)]
     denss = [eamtab.ref_value(ref, dens_pd, i * dr) for i in range(nr)]
-    pairs, eams = eamtab.api_objects(m)
+    pairs, eams = m["_rt"]["objs"] if m.get("_rt") else eamtab.api_objects(m)
     fp = io.StringIO()
     ap.writeFuncFL(nrho, drho, nr, dr, eams, pairs, out=fp, title=m["title"])
     out = fp.getvalue()
@@ -365,6 +394,23 @@ def check_case(m):
         if len(set(keys)) != len(keys):
             return {"v": [], "cls": cls, "nt": False, "skip": True}
     try:
+        if m.get("rewrite"):
+            rw = m["rewrite"]
+            one = rw["same_object"] and m["route"] == "class"
+            cls += ["rewrite:%d_writes" % len(rw["ks"]), "rewrite:" + ("one_object" if one else "same_callables")]
+            w = rewrite.Wrapper(m, rw)
+            objs = pairtab.api_potentials(m, wrap=w) if target == "GULP" else eamtab.api_objects(m, wrap=w)
+            rt = {"objs": objs, "one": one}
+            v = []
+            for n, k in enumerate(rw["ks"]):
+                w.set(k)
+                mm = rewrite.scaled_model(m, rw, k)
+                mm["_rt"] = rt
+                vv = fn(mm, [])
+                v += [(("rewrite:" + bk) if n else bk, "%s\n%s" % (rewrite.describe(m, rw, n, k), d)) for bk, d in vv]
+                if v:
+                    break
+            return {"v": v, "cls": cls, "nt": True}
         v = fn(m, cls)
     except DomainError:
         return {"v": [], "cls": cls, "nt": False, "skip": True}
